@@ -2,8 +2,11 @@ package props
 
 import (
 	"fmt"
+	"sort"
 	"strings"
 	"time"
+
+	"github.com/uhn/ggql/pkg/ggql"
 
 	"verif/mc/core"
 	"verif/mc/world"
@@ -345,12 +348,12 @@ func runC10(c *core.Ctx) {
 		c10DefinitionDirectives(c, s, d, dist, g0, gfs)
 		return true
 	})
-	c.R.Bound = fmt.Sprintf("base documents + %d mutations; one defect at every selection-set site (quick: every third defect kind on the mutated documents); 4 bad directives on every fragment definition and operation, fragments after and before the operations (quick: base documents)", k)
+	c10InterfaceArguments(c)
+	c.R.Bound = fmt.Sprintf("base documents + %d mutations; one defect at every selection-set site (quick: every third defect kind on the mutated documents); 4 bad directives on every fragment definition and operation, fragments after and before the operations (quick: base documents); arguments only an implementer declares, given through the interface (6 request shapes)", k)
 	if !completed {
 		c.Cap("deadline reached")
 	}
 }
-
 
 // c10DefinitionDirectives: an unknown or misplaced directive written on a DEFINITION - every fragment definition and every
 // keyword operation of the document, with the fragment definitions after the operations (each spread is read before its
@@ -468,6 +471,106 @@ func c10DefinitionDirectives(c *core.Ctx, s *world.Schema, d *world.Doc, dist in
 					}
 				}
 			}
+		}
+	}
+}
+
+// ---- arguments through an interface container: an implementer may declare more (optional) arguments on an interface field than
+// the interface does. Through the interface only the interface's declaration counts: an argument that only some implementer
+// declares is an undeclared argument there (error naming it, resolver not invoked with it); on the object itself it is valid.
+
+type c10Pet struct {
+	kind string
+	log  *[]string
+}
+
+func (p *c10Pet) Resolve(f *ggql.Field, args map[string]interface{}) (interface{}, error) {
+	switch f.Name {
+	case "query":
+		return p, nil
+	case "pet", "dog":
+		return &c10Pet{"Dog", p.log}, nil
+	case "cat":
+		return &c10Pet{"Cat", p.log}, nil
+	case "pets":
+		return []interface{}{&c10Pet{"Dog", p.log}, &c10Pet{"Cat", p.log}}, nil
+	}
+	keys := make([]string, 0, len(args))
+	for k := range args {
+		keys = append(keys, k)
+	}
+	sort.Strings(keys)
+	*p.log = append(*p.log, p.kind+"."+f.Name+"("+strings.Join(keys, ",")+")")
+	return p.kind, nil
+}
+
+func c10InterfaceArguments(c *core.Ctx) {
+	const sdl = "interface Pet { name(short: Boolean): String }\n" +
+		"type Dog implements Pet { name(short: Boolean, style: String): String }\n" +
+		"type Cat implements Pet { name(short: Boolean): String }\n" +
+		"type Query { pet: Pet pets: [Pet] dog: Dog cat: Cat }\n"
+	cases := []struct {
+		q     string
+		valid bool
+	}{
+		{`{ pet { name(style: "x") } }`, false}, {`{ pets { name(style: "x") } }`, false}, {`{ pet { ... on Pet { name(style: "x") } } }`, false},
+		{`{ pet { name(short: true, style: "x") } }`, false}, {`{ pets { ...F } } fragment F on Pet { name(style: "x") }`, false}, {`{ cat { name(style: "x") } }`, false},
+		{`{ dog { name(style: "x") } }`, true}, {`{ dog { name(short: true, style: "x") } pet { name(short: false) } }`, true},
+	}
+	for i, cs := range cases {
+		if !c.OwnsIdx(1<<43 + int64(i)) {
+			continue
+		}
+		c.Eval()
+		c.R.Distinct++
+		c.Nontrivial()
+		var log []string
+		root := ggql.NewRoot(&c10Pet{"Query", &log})
+		if err := root.ParseString(sdl); err != nil {
+			panic(core.EngineError{Msg: "C10 interface-argument schema refused: " + err.Error()})
+		}
+		var res map[string]interface{}
+		pi := core.Safe(func() { res = root.ResolveString(cs.q, "", nil) })
+		detail := map[string]interface{}{"sdl": sdl, "query": cs.q, "response": res, "resolver_calls": log}
+		attrs := map[string]string{"defect": "argument-of-an-implementer-through-the-interface", "container": "interface", "strategy": "RS"}
+		if pi != nil {
+			c.Violation("panic", map[string]string{"site": pi.Site, "class": pi.Class, "defect": attrs["defect"], "strategy": "RS"}, detail)
+			continue
+		}
+		withStyle := false
+		for _, l := range log {
+			if strings.Contains(l, "style") {
+				withStyle = true
+			}
+		}
+		named := false
+		if es, ok := res["errors"].([]interface{}); ok {
+			for _, e := range es {
+				if em, ok := e.(map[string]interface{}); ok && strings.Contains(fmt.Sprint(em["message"]), "style") {
+					named = true
+				}
+			}
+		}
+		switch {
+		case cs.valid && res["errors"] != nil:
+			detail["diff"] = "a valid request (the argument is declared by the object type it is given to) was answered with an error"
+			c.Outcome("valid-refused")
+			c.Violation("valid-refused", attrs, detail)
+		case cs.valid:
+			c.Outcome("ok-valid")
+		case res["errors"] == nil:
+			detail["diff"] = "no error for an argument the interface field does not declare"
+			c.Outcome("missing-error")
+			c.Violation("missing-error", attrs, detail)
+		case !named:
+			detail["diff"] = "no error names the argument style"
+			c.Violation("offender-not-named", attrs, detail)
+		case withStyle:
+			detail["diff"] = "a resolver was invoked with the undeclared argument style"
+			c.Outcome("resolver-invoked")
+			c.Violation("resolver-invoked", attrs, detail)
+		default:
+			c.Outcome("ok-rejected")
 		}
 	}
 }
